@@ -28,7 +28,8 @@ pub fn colors_for(ct: &str) -> Colors {
 /// all style combinations: 4 colour presences x widths x 3 alignments
 pub fn styles(c: &Colors, widths: &[u32]) -> Vec<Value> {
     let mut v = vec![];
-    for (f, s) in [(c.fill, c.stroke), (c.fill, -1), (-1, c.stroke), (-1, -1)] {
+    // four colour presences plus "stroke and fill have the SAME colour" (shortcuts for equal colours)
+    for (f, s) in [(c.fill, c.stroke), (c.fill, -1), (-1, c.stroke), (-1, -1), (c.fill, c.fill)] {
         for &w in widths {
             for al in 0..3 {
                 v.push(style_desc(f, s, w, al));
